@@ -21,4 +21,4 @@ require (
 	golang.org/x/text v0.21.0 // indirect
 )
 
-replace ariga.io/atlas => /tmp/vw/lex/repo
+replace ariga.io/atlas => /repo
